@@ -169,6 +169,14 @@ def execute(engine, prop, cfg, rng=None, ops=None, max_ops=None, oplog=None):
         except Discard as d:
             world.discarded = "aborted:" + str(d)[:60]
             res.step = i
+        except HarnessError:
+            raise
+        except Exception as e:      # a bug of the harness inside ONE run: discard the run, count it, keep the trace
+            import traceback
+            world.discarded = "harness_exception:" + type(e).__name__
+            world.extra = dict(getattr(world, "extra", {}) or {})
+            world.extra["_harness_trace"] = traceback.format_exc()[-1500:]
+            res.step = i
         finally:
             try:
                 world.close()
